@@ -24,6 +24,7 @@ CONSTANT PinnedMerge    \* TRUE: op_merge as at the pinned commit (m_done never 
 \* self-test switch (overridden with <- Yes in a configuration): op_merge clears m_done when its upstream is
 \* drained but leaves the branch cursor where it is (what seeded change C01-c does)
 MergeNoRewind == FALSE
+AltSharesScope == FALSE
 Yes == TRUE
 
 -----------------------------------------------------------------------------
@@ -179,9 +180,12 @@ BuildCaptures(names, j, up, st, bn, uv) ==
 
 BuildTinesT(ch, j, m, st, bn, tops, uv, outer, err) ==
     IF j > Len(ch) THEN [st |-> st, tops |-> tops, bn |-> bn, uv |-> uv, err |-> err]
+    \* every branch in a scope of its own (bindings scope {bn} in the loop of case ALT, build.cc; before fix 0e4c750
+    \* -- AltSharesScope -- the branches were compiled in the enclosing scope one after the other, and what the E of
+    \* E? bound, whose parse tree has no SCOPE node, stayed visible behind it)
     ELSE LET t == AddNode(st, [k |-> "tine", merge |-> m, idx |-> j])
-             r == BuildT(ch[j], LastId(t), t, bn, uv, outer)
-         IN BuildTinesT(ch, j + 1, m, r.st, r.bn, Append(tops, r.top), r.uv, outer, err \/ r.err)
+             r == BuildT(ch[j], LastId(t), t, IF AltSharesScope THEN bn ELSE [map |-> bn.map, cur |-> {}], uv, outer)
+         IN BuildTinesT(ch, j + 1, m, r.st, IF AltSharesScope THEN r.bn ELSE bn, Append(tops, r.top), r.uv, outer, err \/ r.err)
 
 BuildOrT(ch, j, st, bn, brs, uv, outer, err) ==
     IF j > Len(ch) THEN [st |-> st, brs |-> brs, bn |-> bn, uv |-> uv, err |-> err]
